@@ -119,13 +119,15 @@ ALL_SIGMA = sorted({
 
 
 def simulate(num, maxtok=30, maxnl=0, seed=0, sigma=None, start='Program',
-             depth=600, workers=4):
+             depth=600, workers=4, layer2=None):
     """random deep derivations (tlc -simulate); -> (TLCResult, sentences
     deduplicated by token string)"""
-    mc, cfg = model_text('sim', start, sigma or ALL_SIGMA, maxtok, maxnl)
+    mc, cfg = model_text('sim', start, sigma or ALL_SIGMA, maxtok, maxnl,
+                         layer2=layer2)
     r = run_tlc('MC_sim', cfg='MC_sim.cfg', cfg_text=cfg,
                 modules={'MC_sim': mc}, workers=workers, heap='4g',
-                simulate=num, depth=depth, seed=seed)
+                simulate=num, depth=depth, seed=seed,
+                extra=('-continue',) if layer2 else ())
     sents = {}
     for s in parse_lines(r.lines, theme='sim'):
         sents.setdefault(s.key(), s)
@@ -220,7 +222,7 @@ if __name__ == '__main__':
 
 def compositions(themes, rng, tier, names=None, chunk=10, twins=True):
     """Longer programs made of the short derived ones (sentence.compose):
-    (a) every explicitly ended sentence of <= 6 tokens ("atom") appears in
+    (a) every explicitly ended sentence of <= 8 tokens  ("atom") appears in
         two seeded shuffles cut into programs of `chunk` atoms - state that a
         printer or lexer carries from one statement to the next is exercised;
     (b) "twins": an atom with exactly one token of a spelling pool class,
@@ -233,13 +235,11 @@ def compositions(themes, rng, tier, names=None, chunk=10, twins=True):
     atoms = {}
     for n in (names or sorted(themes)):
         for s in themes[n]:
-            if 1 <= len(s.tokens) <= 6 and ends_explicitly(s) and \
+            if 1 <= len(s.tokens) <= 8 and ends_explicitly(s) and \
                     s.raw[0][0][:2] == ['(', 'ES5Program'] and \
                     not any(t.nl for t in s.tokens):
                 atoms.setdefault(s.key(), s)
     atoms = [atoms[k] for k in sorted(atoms)]
-    if tier == 'quick':
-        atoms = [a for a in atoms if len(a.tokens) <= 5]
     out = []
     for rnd in range(2):
         order = atoms[:]
